@@ -267,7 +267,9 @@ int main(int argc, char **argv) {
 
 		std::deque<util::StringPiece> lines;
     std::vector<util::StringPiece> delimiters;
-		for (util::StringPiece sentence : in) {
+		util::StringPiece sentence;
+		// A carriage return in front of the newline is part of the line.
+		while (in.ReadLineOrEOF(sentence, '\n', false)) {
 
 			// If there is nothing to wrap, it will end up with a single line
 			// and a single empty delimiter.
